@@ -10,14 +10,14 @@ from . import simcommon as SC
 from .c05 import shapes
 from .c08 import compare_obs
 
-MODULES = ["TickitModel.Props.C09"]
-THEOREMS = []
+MODULES = ['TickitModel.Props.C05', 'TickitModel.Props.C06']
+THEOREMS = ['tickLevel_once', 'initial_tick_complete', 'system_callback_is_min', 'nestedDue_exact', 'nestedDue_spec']
 ANCHORS = ["src/tickit/core/management/schedulers/nested.py", "src/tickit/core/components/system_component.py",
            "src/tickit/core/management/schedulers/base.py", "src/tickit/core/management/ticker.py"]
-TECHNIQUE = "Lean 4 whole-simulation model (nested schedulers at any depth) + theorems on the nested bookkeeping; nested configuration vs mechanical flattening both run on the real code and validated against the model"
-LEVEL_TEXT = "see DESIGN.md"
-LEVEL_NOTE = "see DESIGN.md"
-ASSUMPTIONS = ["valid configurations: unique names, acyclic at every level, one source per port"]
+TECHNIQUE = 'Lean 4 whole-simulation model with nested schedulers + Lean flattening function; theorems on the nested tick (inner tick inside the outer one at the same time, each device once; system callback = inner minimum; due-selection exact) + nested configuration vs mechanical flattening, both run on the real code and in the model'
+LEVEL_TEXT = "PARTIAL. Proved over the nested whole-simulation model: a tick of any level updates each device below it at most once, all at the outer tick's time; in the initial tick every device at every depth exactly once; what a system reports upward is the minimum inner wakeup and the inner due-set at that time is exactly the entries equal to it (callbacks inside systems are served at exactly the requested time). The transparency theorem itself (per-device observations of S equal those of flatten S, stated in Props/C09.lean over the same executable model) is registered as an obligation only once its proof is complete (see DESIGN.md for its status); until then transparency rests on validation: every generated nesting (depth <= 3, siblings, system-in-system, pass-through expose, no inputs / no expose) and its mechanical flattening are BOTH run on the real code under two buses, must give identical per-device observation sequences, and both must agree with the Lean model; the Lean and Python flattenings are compared; the model itself is run nested and flattened."
+LEVEL_NOTE = 'Trusts: Lean kernel; hand-written nested model and flattening; transparency beyond the proved lemmas is validated by sampling, not proved.'
+ASSUMPTIONS = ['valid configurations', 'interrupt histories as restricted by the property']
 
 
 def run(tier, seed, drv):
